@@ -18,8 +18,8 @@ DISTINCT_RULE = (
     "with different limits, simulation and live double; a real ThreadPoolExecutor stress with bytecode-level yields inside add_transaction; distinct = (client limit class, "
     "hour-bucket changes, refused?, kind) cells at the control + thread rounds"
 )
-RULES = ["gate", "totals", "threaded-round"]
-MINIMA = {"quick": {"rule_gate": 8000, "rule_totals": 800, "rule_threaded-round": 40}, "thorough": {"rule_gate": 300000, "rule_threaded-round": 1000}}
+RULES = ["gate", "gated", "totals", "threaded-round"]
+MINIMA = {"quick": {"rule_gate": 8000, "rule_gated": 5000, "rule_totals": 800, "rule_threaded-round": 40}, "thorough": {"rule_gate": 300000, "rule_threaded-round": 1000}}
 ASSUMPTIONS = [
     "counting model B6 fed from the execution boundary (simulated responses / the double's call log), never from flumine's counters",
     "a request 'made in a new clock hour' is one that reaches the client control (an earlier trading control may refuse first)",
@@ -71,6 +71,20 @@ def judge_gate(tr, out, shadow_events, limits):
                 out.v("total-count-differs", dict(tags, direction="over" if c["total_after"] > total else "under"), call=c, shadow_total=total)
 
 
+def judge_gated(tr, out):
+    """Every accepted, non-forced request of a strategy went through the client's transaction-limit control (once per request):
+    a request that the control never saw cannot have been refused by it."""
+    seqs = [r["seq"] for r in tr.requests] + [float("inf")]
+    for i, r in enumerate(tr.requests):
+        if not r.get("result") or r["force"] or not r["execute"]:
+            continue
+        out.rule("gated")
+        seen = [c for c in tr.mtc if c["o"] == r["o"] and c["kind"] == r["kind"] and r["seq"] < c["seq"] < seqs[i + 1]]
+        if len(seen) != 1:
+            same_tx = sum(1 for q in tr.requests[:i] if q["tx"] == r["tx"])
+            out.v("accepted-request-not-gated-once", {"kind": r["kind"], "seen": min(len(seen), 2), "first_of_batch": same_tx == 0}, request={k: r[k] for k in ("seq", "kind", "o", "tx")})
+
+
 def run_sim(desc, out):
     rng = simgen.mk_rng(desc["seed"], desc["idx"], 18)
     nm = rng.choice((1, 2, 3))
@@ -101,6 +115,7 @@ def run_sim(desc, out):
             shadow.append((hi, client_of.get(e["pid"]), n))
     limits = {c["username"]: c["transaction_limit"] for c in case["clients"]}
     judge_gate(tr, out, shadow, limits)
+    judge_gated(tr, out)
     fw = tr.framework
     for cl in fw.clients:
         out.rule("totals")
@@ -197,6 +212,7 @@ def run_live(desc, out):
         absorb()
         limits = {c.username: lims[i] for i, c in enumerate(w.clients)}
         judge_gate(tr, out, shadow, limits)
+        judge_gated(tr, out)
         for cl in w.clients:
             out.rule("totals")
             exp = sum(n for _, c, n in shadow if c == cl.username)
